@@ -168,12 +168,39 @@ pub fn run(ctx: &mut Ctx) {
                 for h2 in hs.iter().filter(|x| x.name != h.name).take(3) {
                     variants.push(("protected-replaced", enc_cose(tag, &h2.bytes, &unprot, &attached, &sig), detached.clone(), aad.clone(), false));
                 }
+                // the protected bucket as a third party may encode it (not the bytes coset's own encoder writes): the
+                // signature is over the bytes AS SENT; a signature over their canonical re-encoding must fail
+                if (h.name == "es256" && !mac) || (h.name == "hmac256" && mac) {
+                    let foreigns: Vec<Vec<u8>> = if !mac {
+                        vec![vec![0xa1, 0x01, 0x38, 0x06], vec![0xbf, 0x01, 0x26, 0xff], vec![0xa1, 0x18, 0x01, 0x26], vec![0xa2, 0x04, 0x41, 0x01, 0x01, 0x26], vec![0xb8, 0x01, 0x01, 0x26]]
+                    } else {
+                        vec![vec![0xa1, 0x01, 0x18, 0x05], vec![0xbf, 0x01, 0x05, 0xff], vec![0xa1, 0x18, 0x01, 0x05], vec![0xa2, 0x04, 0x41, 0x01, 0x01, 0x05]]
+                    };
+                    let pl = attached.clone().or(detached.clone()).unwrap_or_default();
+                    for f in foreigns {
+                        let t = to_bytes(&Value::Array(vec![text(if mac { "MAC0" } else { "Signature1" }), bytes(&f), bytes(&aad.clone().unwrap_or_default()), bytes(&pl)]));
+                        let sf: Vec<u8> = if mac { let mut m = Hmac::<Sha256>::new_from_slice(&hkey).unwrap(); m.update(&t); m.finalize().into_bytes().to_vec() }
+                                          else { let s: Signature = key.sign(&t); s.to_vec() };
+                        variants.push(("protected-foreign-encoding", enc_cose(tag, &f, &unprot, &attached, &sf), detached.clone(), aad.clone(), false));
+                        variants.push(("protected-foreign-encoding-signed-over-canonical", enc_cose(tag, &f, &unprot, &attached, &sig), detached.clone(), aad.clone(), false));
+                    }
+                }
                 for (vname, enc, det, ad, otherkey) in variants {
                     let verifier_alg: i64 = if mac { 5 } else { -7 };
                     // which header is in this variant? (for the RFC relation) decode the protected bucket ourselves
                     let hv = crate::runner::from_bytes(&enc).map(|v| match v { Value::Tag(_, b) => *b, o => o });
                     let pbytes = hv.as_ref().and_then(|v| v.as_array()).and_then(|a| a[0].as_bytes().cloned()).unwrap_or_default();
-                    let hrel = hs.iter().find(|x| x.bytes == pbytes).map(|x| rel(x, verifier_alg)).unwrap_or(9);
+                    let hrel = hs.iter().find(|x| x.bytes == pbytes).map(|x| rel(x, verifier_alg)).unwrap_or_else(|| {
+                        // a bucket that is none of the table's: read label 1 with an independent decoder
+                        match crate::runner::from_bytes(&pbytes) {
+                            Some(Value::Map(m)) => match m.iter().find(|(k, _)| k.as_integer().map(i128::from) == Some(1)).map(|(_, v)| v.clone()) {
+                                None => 0,
+                                Some(Value::Integer(a)) if i128::from(a) == verifier_alg as i128 => 1,
+                                Some(_) => 2,
+                            },
+                            _ => 9,
+                        }
+                    });
                     let att = hv.as_ref().and_then(|v| v.as_array()).and_then(|a| a[2].as_bytes().cloned());
                     let sgb = hv.as_ref().and_then(|v| v.as_array()).and_then(|a| a[3].as_bytes().cloned()).unwrap_or_default();
                     let model_tbs = ctx.runner.query("c17.tbs", vec![Value::Bool(mac), bytes(&enc), opt(&det), opt(&ad)]);
